@@ -1407,7 +1407,11 @@ func (ip *Interp) callFn(fr *frame, site *ssa.Call, fn *ssa.Function, args []AV,
 	}
 	if ip.stopAt != nil && ip.stopAt(fn) {
 		ip.escape(args, st)
-		return topOfResult(resT), true
+		r := topOfResult(resT)
+		if ip.postCall != nil {
+			r = ip.postCall(fn, args, r)
+		}
+		return r, true
 	}
 	// membership in a constant package-level table, decided exactly
 	if len(args) == 2 && args[0].K == kSlice && args[0].Consts != nil && args[1].K == kConst && args[1].C.Kind() == constant.String && isFoldContains(fn) {
